@@ -40,6 +40,26 @@ CLAIMED = {
         technique='per-iteration contract + loop invariant on real source, pyvc -> z3',
         design_ref='7/C21',
     ),
+    'C25': dict(
+        text='(a) the language of each real compiled pattern equals the documented grammar (both inclusions, z3 regex solver); (b) capture groups = unique '
+        'NUM/UNIT decomposition, UNIT set enumerated from the pattern; (c) the arithmetic of the three real parse functions is verified for every unit and '
+        'every decimal text: result == floor/ceil of dec(NUM) x spec factor, exact rationals for Fraction values and the (1+d) relative-error model for floats, '
+        'so any float artefact refutes an obligation; server validators use the same pattern objects with fullmatch (AST obligations).',
+        note=COMMON_NOTE + 'dec(NUM) (value of a decimal text) is an uninterpreted function = contract of fractions.Fraction(str); float model assumes no overflow/underflow; '
+        'witnesses for refuted exactness obligations come from a concrete search on the real functions.',
+        technique='contract (language equality + exact-arithmetic postconditions) on real source, relang + pyvc -> z3',
+        engine='pyvc+relang',
+        design_ref='7/C25',
+    ),
+    'C38': dict(
+        text='calculate_even_genome_partitioning.calc_parts verified for every contig length >= 1 and interval size >= 1: the inclusive intervals start at base 1, '
+        'are adjacent and non-empty, end at the contig length and satisfy end - start <= interval_size (loop invariant, nonlinear ceil facts discharged by z3). '
+        'Only this clause of C38 is claimed; merge-plan conservation and save/resume are listed undecided.',
+        note=COMMON_NOTE + 'math.ceil(a / b) on ints treated as the exact rational ceiling (valid below 2**53); hl.Interval/hl.Locus are value constructors; '
+        'the @typecheck decorator is dropped by extraction. Merge plan (_step_vdses/_step_gvcfs), plan save/load and engine calls are NOT covered.',
+        technique='loop-invariant contract on real source, pyvc -> z3',
+        design_ref='7/C38',
+    ),
 }
 
 NOT_YET = 'not yet brought within the verifier\'s reach in this build (planned in DESIGN.md section 7); no claim is made'
